@@ -132,7 +132,31 @@ fn lit_src(t: &str, v: i64, typed: bool) -> String {
     match t { "BOOL" => if v == 1 { "TRUE".into() } else { "FALSE".into() }, "BYTE" | "WORD" => format!("{t}#16#{v:X}"),
               _ => if typed { if v < 0 { format!("{t}#-{}", -v) } else { format!("{t}#{v}") } } else { format!("{v}") } }
 }
+thread_local! {
+    /// Rendering mode of the program being written: every sub-expression in parentheses, or only
+    /// the parentheses IEC operator precedence and left associativity require (the AST is the
+    /// reference's input either way, so the second mode puts the parser's precedence under test).
+    static MIN_PARENS: std::cell::Cell<bool> = std::cell::Cell::new(false);
+}
+/// IEC 61131-3 precedence of the expression's top operator (atoms highest).
+fn prec(e: &J) -> u8 {
+    match e["k"].as_str().unwrap() {
+        "un" => 8,
+        "bin" => match e["op"].as_str().unwrap() {
+            "mul" | "div" | "mod" => 6,
+            "add" | "sub" => 5,
+            "lt" | "le" | "gt" | "ge" => 4,
+            "eq" | "ne" => 3,
+            "and" => 2,
+            "xor" => 1,
+            _ => 0,
+        },
+        "lit" if e["t"] == "ANYINT" && e["v"].as_i64().unwrap_or(0) < 0 => 8, // "-5" is a unary minus
+        _ => 10,
+    }
+}
 fn expr_src(e: &J, typed: bool) -> String {
+    let min = MIN_PARENS.with(|m| m.get());
     match e["k"].as_str().unwrap() {
         "lit" => lit_src(e["t"].as_str().unwrap(), e["v"].as_i64().unwrap(), typed),
         "var" => e["n"].as_str().unwrap().to_string(),
@@ -145,9 +169,33 @@ fn expr_src(e: &J, typed: bool) -> String {
             }
             format!("{}({})", e["fn"].as_str().unwrap(), parts.join(", "))
         }
-        "un" => format!("({} ({}))", if e["op"] == "neg" { "-" } else { "NOT" }, expr_src(&e["e"], typed)),
-        _ => { let op = match e["op"].as_str().unwrap() { "add" => "+", "sub" => "-", "mul" => "*", "div" => "/", "mod" => "MOD", "and" => "AND", "or" => "OR", "xor" => "XOR", "eq" => "=", "ne" => "<>", "lt" => "<", "le" => "<=", "gt" => ">", _ => ">=" };
-               format!("({} {} {})", expr_src(&e["l"], typed), op, expr_src(&e["r"], typed)) }
+        "un" => {
+            let op = if e["op"] == "neg" { "-" } else { "NOT" };
+            if min && prec(&e["e"]) == 10 {
+                format!("{op} {}", expr_src(&e["e"], typed))
+            } else if min {
+                format!("{op} ({})", expr_src(&e["e"], typed))
+            } else {
+                format!("({op} ({}))", expr_src(&e["e"], typed))
+            }
+        }
+        _ => {
+            let opn = e["op"].as_str().unwrap();
+            let op = match opn { "add" => "+", "sub" => "-", "mul" => "*", "div" => "/", "mod" => "MOD", "and" => "AND", "or" => "OR", "xor" => "XOR", "eq" => "=", "ne" => "<>", "lt" => "<", "le" => "<=", "gt" => ">", _ => ">=" };
+            if !min {
+                return format!("({} {} {})", expr_src(&e["l"], typed), op, expr_src(&e["r"], typed));
+            }
+            let p = prec(e);
+            // comparisons and equalities are never chained without parentheses (the documents of the
+            // repository and IEC Table 71 rank "=" differently relative to "<")
+            let cmp = p == 3 || p == 4;
+            let wrap = |x: &J, right: bool| {
+                let px = prec(x);
+                let need = if cmp { px <= 4 } else if right { px <= p } else { px < p };
+                if need { format!("({})", expr_src(x, typed)) } else { expr_src(x, typed) }
+            };
+            format!("{} {} {}", wrap(&e["l"], false), op, wrap(&e["r"], true))
+        }
     }
 }
 fn stmts_src(ss: &[J], typed: bool, ind: usize, out: &mut String) {
@@ -357,6 +405,7 @@ pub fn gen(args: &[String]) -> i32 {
         decl.insert("arr".into(), json!({"t": "ARRAY", "el": "INT", "lo": 0, "hi": 3}));
         init.insert("arr".into(), json!({"t": "ARRAY", "lo": 0, "el": [{"t": "INT", "v": 0}, {"t": "INT", "v": 0}, {"t": "INT", "v": 0}, {"t": "INT", "v": 0}]}));
         let body = g.block(2, false);
+        MIN_PARENS.with(|m| m.set(g.rng.gen_bool(0.5)));
         stmts_src(&body, true, 0, &mut src);
         src.push_str("END_PROGRAM\n");
         if case_variant {
